@@ -97,9 +97,26 @@ pub mod c06_finalize_iter {
     pub struct ClonedIterC06<T> { k: core::marker::PhantomData<T> }
     impl<T> ClonedIterC06<T> {
         pub uninterp spec fn src(&self) -> Seq<T>;
+        /// the items still to come when iterated directly
+        pub open spec fn rest(&self) -> Seq<T> { self.src() }
         /// `DoubleEndedIterator::rev()`: the same elements, back to front
         #[verifier::external_body]
         pub fn rev(self) -> (r: RevIterC06<T>) ensures r.rest() == self.src().reverse() { unimplemented!() }
+    }
+    /// iterating the cloned iterator directly (without `.rev()`): front to back
+    impl<T> Iterator for ClonedIterC06<T> {
+        type Item = T;
+        #[verifier::external_body]
+        fn next(&mut self) -> (r: Option<T>) { unimplemented!() }
+    }
+    impl<T> vstd::std_specs::iter::IteratorSpecImpl for ClonedIterC06<T> {
+        open spec fn obeys_prophetic_iter_laws(&self) -> bool { true }
+        open spec fn remaining(&self) -> Seq<T> { self.src() }
+        open spec fn will_return_none(&self) -> bool { true }
+        open spec fn peek(&self, index: int) -> Option<T> {
+            if 0 <= index < self.src().len() { Some(self.src()[index]) } else { None }
+        }
+        open spec fn decrease(&self) -> Option<nat> { Some(self.src().len()) }
     }
     #[verifier::external_body]
     #[verifier::reject_recursive_types(T)]
